@@ -3,4 +3,4 @@
 From Coq Require Import Extraction ExtrOcamlBasic NArith ZArith List.
 From AHK Require Import Lib.Res Lib.ByteStr Model.Frame.
 Separate Extraction Z.of_N Z.to_N N.of_nat N.to_nat N.add
-  ip_send ip_feed ip_step ip_acc_recv toy_aead.
+  ip_send ip_feed ip_step ip_acc_recv ip_sess_step toy_aead.
